@@ -821,6 +821,14 @@ class Interp:
             return conds[0] if len(conds) == 1 else ('and', conds)
         if k == 'PStruct':
             v = self.resolve(pat['path']['segs'])
+            if v in self.c.structs:
+                # destructuring a crate struct is irrefutable: plain field projections
+                conds = []
+                for f in pat['fields']:
+                    c = self.bind(f['pat'], self.field(scrut, f['name']), env)
+                    if c != TRUE:
+                        conds.append(c)
+                return TRUE if not conds else conds[0] if len(conds) == 1 else ('and', conds)
             conds = [('is', scrut, v)]
             for f in pat['fields']:
                 c = self.bind(f['pat'], ('vf', scrut, v, f['name']), env)
@@ -1665,6 +1673,19 @@ class Interp:
                 v = prune(v, pos, neg)
                 return ('tuple', [('opt', c, self.field(v, '0')), ('opt', c, self.field(v, '1'))])
             return ('mcall', recv, m, args)
+        if m == 'partition' and len(args) == 1 and args[0][0] == 'closure':
+            # (elements satisfying the predicate, the others), each in the original order
+            outs = []
+            for negate in (False, True):
+                eid = self.fresh('e')
+                src, body, conds = self.as_pipeline(recv, eid)
+                self.frame['loops'].append((eid, src, conds))
+                try:
+                    c = self.as_cond(self.call_value(args[0], [body]))
+                finally:
+                    self.frame['loops'].pop()
+                outs.append(('star', src, eid, body, conds + [self.neg(c) if negate else c], recv[5] if recv[0] == 'star' else False))
+            return ('tuple', outs)
         if m == 'enumerate':
             eid = self.fresh('e')
             src, body, conds = self.as_pipeline(recv, eid)
